@@ -273,9 +273,9 @@ class Run:
         cov.update(self.extra)
         ev = {"property_id": self.prop, "tier": self.tier, "seed": self.seed, "level": level, "coverage": cov,
               "assumptions": self.assumptions, "wall_s": round(time.time() - self.t0, 1), "violations": len(printed)}
-        evdir = os.path.join(VERIF, "evidence")
-        if os.path.realpath(REPO) != "/repo":
-            evdir = os.environ.get("VERIF_EVIDENCE_DIR", tempfile.gettempdir())  # another tree: leave the real evidence alone
+        evdir = os.environ.get("VERIF_EVIDENCE_DIR") or os.path.join(VERIF, "evidence")
+        if os.path.realpath(REPO) != "/repo" and not os.environ.get("VERIF_EVIDENCE_DIR"):
+            evdir = tempfile.gettempdir()  # another tree: leave the real evidence alone
         os.makedirs(evdir, exist_ok=True)
         with open(os.path.join(evdir, self.prop + ".json"), "w") as f:
             json.dump(ev, f, indent=1, default=str)
